@@ -23,6 +23,8 @@ pub enum Op {
     Swap,
     FetchAdd,
     FetchSub,
+    /// any other read-modify-write (`fetch_or`, `fetch_and`, ...; `name` says which)
+    Rmw,
     Cas,
     CasWeak,
     MutexLock,
@@ -199,62 +201,93 @@ macro_rules! atomic_int {
                 }
                 r
             }
+            #[track_caller]
+            pub fn fetch_add(&self, v: $t, o: Ordering) -> $t {
+                let mut e = ev(Op::FetchAdd, Location::caller(), self.addr());
+                e.ord = Some(o);
+                e.arg = v as u64;
+                pre(&e);
+                let r = self.0.fetch_add(v, o);
+                post(&e, r as u64, true);
+                r
+            }
+            #[track_caller]
+            pub fn fetch_sub(&self, v: $t, o: Ordering) -> $t {
+                let mut e = ev(Op::FetchSub, Location::caller(), self.addr());
+                e.ord = Some(o);
+                e.arg = v as u64;
+                pre(&e);
+                let r = self.0.fetch_sub(v, o);
+                post(&e, r as u64, true);
+                r
+            }
+            #[track_caller]
+            pub fn fetch_or(&self, v: $t, o: Ordering) -> $t {
+                let mut e = ev(Op::Rmw, Location::caller(), self.addr());
+                e.ord = Some(o);
+                e.arg = v as u64;
+                e.name = "fetch_or";
+                pre(&e);
+                let r = self.0.fetch_or(v, o);
+                post(&e, r as u64, true);
+                r
+            }
+            #[track_caller]
+            pub fn fetch_and(&self, v: $t, o: Ordering) -> $t {
+                let mut e = ev(Op::Rmw, Location::caller(), self.addr());
+                e.ord = Some(o);
+                e.arg = v as u64;
+                e.name = "fetch_and";
+                pre(&e);
+                let r = self.0.fetch_and(v, o);
+                post(&e, r as u64, true);
+                r
+            }
+            #[track_caller]
+            pub fn fetch_xor(&self, v: $t, o: Ordering) -> $t {
+                let mut e = ev(Op::Rmw, Location::caller(), self.addr());
+                e.ord = Some(o);
+                e.arg = v as u64;
+                e.name = "fetch_xor";
+                pre(&e);
+                let r = self.0.fetch_xor(v, o);
+                post(&e, r as u64, true);
+                r
+            }
+            #[track_caller]
+            pub fn fetch_max(&self, v: $t, o: Ordering) -> $t {
+                let mut e = ev(Op::Rmw, Location::caller(), self.addr());
+                e.ord = Some(o);
+                e.arg = v as u64;
+                e.name = "fetch_max";
+                pre(&e);
+                let r = self.0.fetch_max(v, o);
+                post(&e, r as u64, true);
+                r
+            }
+            #[track_caller]
+            pub fn fetch_min(&self, v: $t, o: Ordering) -> $t {
+                let mut e = ev(Op::Rmw, Location::caller(), self.addr());
+                e.ord = Some(o);
+                e.arg = v as u64;
+                e.name = "fetch_min";
+                pre(&e);
+                let r = self.0.fetch_min(v, o);
+                post(&e, r as u64, true);
+                r
+            }
         }
     };
 }
 
 atomic_int!(AtomicU16, sa::AtomicU16, u16);
 
-/// `AtomicUsize` with the arithmetic read-modify-writes the half-lock uses.
-#[derive(Debug, Default)]
-pub struct AtomicUsize(sa::AtomicUsize);
-
-impl AtomicUsize {
-    pub const fn new(v: usize) -> Self {
-        AtomicUsize(sa::AtomicUsize::new(v))
-    }
-    fn addr(&self) -> usize {
-        &self.0 as *const _ as usize
-    }
-    #[track_caller]
-    pub fn load(&self, o: Ordering) -> usize {
-        let mut e = ev(Op::Load, Location::caller(), self.addr());
-        e.ord = Some(o);
-        pre(&e);
-        let v = self.0.load(o);
-        post(&e, v as u64, true);
-        v
-    }
-    #[track_caller]
-    pub fn store(&self, v: usize, o: Ordering) {
-        let mut e = ev(Op::Store, Location::caller(), self.addr());
-        e.ord = Some(o);
-        e.arg = v as u64;
-        pre(&e);
-        self.0.store(v, o);
-        post(&e, v as u64, true);
-    }
-    #[track_caller]
-    pub fn fetch_add(&self, v: usize, o: Ordering) -> usize {
-        let mut e = ev(Op::FetchAdd, Location::caller(), self.addr());
-        e.ord = Some(o);
-        e.arg = v as u64;
-        pre(&e);
-        let r = self.0.fetch_add(v, o);
-        post(&e, r as u64, true);
-        r
-    }
-    #[track_caller]
-    pub fn fetch_sub(&self, v: usize, o: Ordering) -> usize {
-        let mut e = ev(Op::FetchSub, Location::caller(), self.addr());
-        e.ord = Some(o);
-        e.arg = v as u64;
-        pre(&e);
-        let r = self.0.fetch_sub(v, o);
-        post(&e, r as u64, true);
-        r
-    }
-}
+atomic_int!(AtomicUsize, sa::AtomicUsize, usize);
+atomic_int!(AtomicU8, sa::AtomicU8, u8);
+atomic_int!(AtomicU32, sa::AtomicU32, u32);
+atomic_int!(AtomicU64, sa::AtomicU64, u64);
+atomic_int!(AtomicIsize, sa::AtomicIsize, isize);
+atomic_int!(AtomicI32, sa::AtomicI32, i32);
 
 #[derive(Debug, Default)]
 pub struct AtomicBool(sa::AtomicBool);
@@ -299,6 +332,66 @@ impl AtomicBool {
         }
         r
     }
+    #[track_caller]
+    pub fn swap(&self, v: bool, o: Ordering) -> bool {
+        let mut e = ev(Op::Swap, Location::caller(), self.addr());
+        e.ord = Some(o);
+        e.arg = v as u64;
+        pre(&e);
+        let r = self.0.swap(v, o);
+        post(&e, r as u64, true);
+        r
+    }
+    #[track_caller]
+    pub fn compare_exchange_weak(&self, cur: bool, new: bool, s: Ordering, f: Ordering) -> Result<bool, bool> {
+        let mut e = ev(Op::CasWeak, Location::caller(), self.addr());
+        e.ord = Some(s);
+        e.ord_fail = Some(f);
+        e.arg = cur as u64;
+        e.arg2 = new as u64;
+        let r = match pre(&e) {
+            Inject::SpuriousFail => Err(self.0.load(sa::Ordering::SeqCst)),
+            _ => self.0.compare_exchange(cur, new, s, f),
+        };
+        match r {
+            Ok(v) => post(&e, v as u64, true),
+            Err(v) => post(&e, v as u64, false),
+        }
+        r
+    }
+    #[track_caller]
+    pub fn fetch_or(&self, v: bool, o: Ordering) -> bool {
+        let mut e = ev(Op::Rmw, Location::caller(), self.addr());
+        e.ord = Some(o);
+        e.arg = v as u64;
+        e.name = "fetch_or";
+        pre(&e);
+        let r = self.0.fetch_or(v, o);
+        post(&e, r as u64, true);
+        r
+    }
+    #[track_caller]
+    pub fn fetch_and(&self, v: bool, o: Ordering) -> bool {
+        let mut e = ev(Op::Rmw, Location::caller(), self.addr());
+        e.ord = Some(o);
+        e.arg = v as u64;
+        e.name = "fetch_and";
+        pre(&e);
+        let r = self.0.fetch_and(v, o);
+        post(&e, r as u64, true);
+        r
+    }
+    #[track_caller]
+    pub fn fetch_xor(&self, v: bool, o: Ordering) -> bool {
+        let mut e = ev(Op::Rmw, Location::caller(), self.addr());
+        e.ord = Some(o);
+        e.arg = v as u64;
+        e.name = "fetch_xor";
+        pre(&e);
+        let r = self.0.fetch_xor(v, o);
+        post(&e, r as u64, true);
+        r
+    }
 }
 
 pub struct AtomicPtr<T>(sa::AtomicPtr<T>);
@@ -339,6 +432,30 @@ impl<T> AtomicPtr<T> {
         pre(&e);
         let r = self.0.swap(p, o);
         post(&e, r as usize as u64, true);
+        r
+    }
+    #[track_caller]
+    pub fn store(&self, p: *mut T, o: Ordering) {
+        let mut e = ev(Op::Store, Location::caller(), self.addr());
+        e.ord = Some(o);
+        e.arg = p as usize as u64;
+        pre(&e);
+        self.0.store(p, o);
+        post(&e, p as usize as u64, true);
+    }
+    #[track_caller]
+    pub fn compare_exchange(&self, cur: *mut T, new: *mut T, s: Ordering, f: Ordering) -> Result<*mut T, *mut T> {
+        let mut e = ev(Op::Cas, Location::caller(), self.addr());
+        e.ord = Some(s);
+        e.ord_fail = Some(f);
+        e.arg = cur as usize as u64;
+        e.arg2 = new as usize as u64;
+        pre(&e);
+        let r = self.0.compare_exchange(cur, new, s, f);
+        match r {
+            Ok(v) => post(&e, v as usize as u64, true),
+            Err(v) => post(&e, v as usize as u64, false),
+        }
         r
     }
 }
